@@ -551,6 +551,260 @@ func (g *gen) manyFragments(w *world) {
 	}
 }
 
+// ---------- two sender instances before the conversation knows any (C14) ----------
+
+// the only thing a piece of another instance may cause: the notice that it was for somebody else
+func onlyForeignNotices() bool {
+	ev := fmt.Sprintf("msg:%d", int(otr3.MessageEventReceivedMessageForOtherInstance))
+	if lastEvents == "[]" {
+		return true
+	}
+	for _, e := range bytes.Split([]byte(lastEvents[1:len(lastEvents)-1]), []byte(",")) {
+		if string(e) != ev {
+			return false
+		}
+	}
+	return true
+}
+
+type instArrival struct {
+	owner bool // a piece of the stream that arrived first (the instance the conversation listens to from then on)
+	ix    int  // 0-based index in its stream
+}
+
+// an arrival order of the pieces of two streams (n pieces of the owner, m of the other instance), each
+// stream in order, the owner's first piece first, the streams interleaving before the owner's completes
+func (g *gen) twoInstanceOrder(pattern, n, m int) (order []instArrival, name string) {
+	put := func(owner bool, from, to int) {
+		for i := from; i < to; i++ {
+			order = append(order, instArrival{owner, i})
+		}
+	}
+	k := 1 + g.r.Intn(n-1) // 1..n-1 pieces of the owner first
+	switch pattern {
+	case 0: // the other instance's pieces k+1.. follow the owner's 1..k; later everything else
+		name = "owner 1..k, other k+1.., owner k+1.., other from its first piece on"
+		if k >= m {
+			k = m - 1
+		}
+		put(true, 0, k)
+		put(false, k, m)
+		put(true, k, n)
+		put(false, 0, m)
+	case 1: // the other instance starts its own stream in between
+		name = "owner 1..k, other 1..j, owner k+1.., other j+1.."
+		j := 1 + g.r.Intn(m)
+		put(true, 0, k)
+		put(false, 0, j)
+		put(true, k, n)
+		put(false, j, m)
+	default: // any merge that starts with the owner's first piece and has a foreign piece before the owner's last
+		name = "random merge"
+		i, j := 1, 0
+		order = append(order, instArrival{true, 0})
+		for i < n || j < m {
+			if j < m && (i >= n || g.r.Intn(2) == 0 || (i == n-1 && j == 0)) {
+				order = append(order, instArrival{false, j})
+				j++
+			} else {
+				order = append(order, instArrival{true, i})
+				i++
+			}
+		}
+	}
+	return
+}
+
+// Two client instances of the peer's account address a conversation that has not accepted anything
+// from any instance yet (OTRv3, peer instance unknown), each with a fragmented message; their pieces
+// interleave on the wire. The conversation listens to the instance whose piece arrives first. Property:
+// a piece of the other instance causes nothing (but the notice that it was meant for somebody else),
+// a piece that is not the last one of the owner's stream causes nothing at all, and the last piece of
+// the owner's stream causes exactly the owner's message to be processed - whatever arrived in between.
+//
+//	kind 0: hand-made pieces of an unencrypted text          (processed = delivered as plaintext)
+//	kind 1: hand-made pieces of a query message               (processed = one D-H Commit goes out)
+//	kind 2: the fragmented D-H Commits by which two real clients answer our query
+//	        (processed = one D-H Key goes out, to the owner, and the key exchange with it completes)
+//	kind 3: inside the handshake: the fragmented D-H Keys by which two real clients answer our D-H Commit
+//	        (processed = one Reveal Signature goes out, to the owner, and the key exchange completes)
+func (g *gen) twoInstancesBeforeBinding(w *world, kind, pattern int) {
+	w.parties = map[string]*party{}
+	w.dead = false
+	tag := func() uint32 { return 0x100 + g.r.Uint32()%0xfffffe00 }
+	rt, t1, t2 := tag(), tag(), tag()
+	for t2 == t1 {
+		t2 = tag()
+	}
+	r := w.newParty(partyCfg{policies: 4, keyIdx: 1, errh: true, tag: rt})
+	kinds := []string{"unencrypted text", "query message", "D-H Commit (two clients answer our query)", "D-H Key (two clients answer our D-H Commit)"}
+	expect := []string{"the owner's text as plaintext, nothing to send", "one D-H Commit to send, addressed to the owner", "one D-H Key to send, addressed to the owner", "one Reveal Signature to send, addressed to the owner"}
+	var streams [2][][]byte // [0] the owner's, [1] the other instance's
+	var wholes [2][]byte
+	var clients [2]*party
+	tags := [2]uint32{t1, t2}
+	switch kind {
+	case 0, 1:
+		w.query(r) // our query went out; nothing came back yet
+		n := 2 + g.r.Intn(4)
+		m := n
+		if pattern != 0 && g.r.Intn(3) == 0 {
+			m = 2 + g.r.Intn(4)
+		}
+		for s := 0; s < 2; s++ {
+			if kind == 0 {
+				b := make([]byte, 12+g.r.Intn(60))
+				for i := range b {
+					b[i] = byte('a' + g.r.Intn(26))
+				}
+				wholes[s] = append([]byte(fmt.Sprintf("client %d says %d ", s+1, g.r.Intn(1000000))), b...)
+			} else {
+				wholes[s] = [][]byte{[]byte("?OTRv3?"), []byte("?OTRv23?"), []byte("?OTRv3? let us talk in private"), []byte("?OTRv34x?")}[g.r.Intn(4)]
+			}
+			cnt := []int{n, m}[s]
+			rcv := uint32(0) // a client that has not heard from us addresses no instance - or it knows ours
+			if g.r.Intn(2) == 0 {
+				rcv = rt
+			}
+			for i := 0; i < cnt; i++ {
+				part := wholes[s][i*len(wholes[s])/cnt : (i+1)*len(wholes[s])/cnt]
+				streams[s] = append(streams[s], []byte(fmt.Sprintf("?OTR|%08x|%08x,%05d,%05d,%s,", tags[s], rcv, i+1, cnt, part)))
+			}
+		}
+	default:
+		var opening []byte
+		if kind == 2 {
+			opening = w.query(r)
+		} else {
+			// a query reaches us (it names no instance): our D-H Commit goes to every client of the account
+			_, ts, err, _ := w.recv(r, []byte("?OTRv3?"))
+			if w.dead || err != nil || len(ts) != 1 {
+				return
+			}
+			opening = ts[0]
+		}
+		size := 35 + 30 + g.r.Intn(200)
+		for s := 0; s < 2; s++ {
+			clients[s] = w.newParty(partyCfg{policies: 4, keyIdx: 0, errh: true, tag: tags[s], fragSize: size})
+			_, ts, err, _ := w.recv(clients[s], opening)
+			if w.dead || err != nil || len(ts) < 2 {
+				return
+			}
+			for _, p := range ts {
+				streams[s] = append(streams[s], []byte(p))
+			}
+		}
+	}
+	n, m := len(streams[0]), len(streams[1])
+	if pattern == 0 && n != m {
+		pattern = 1
+	}
+	order, pname := g.twoInstanceOrder(pattern, n, m)
+	g.dist[fmt.Sprintf("frag:two-instances:%d:%d", kind, pattern)]++
+	var what []string
+	processed := 0
+	key := "glued-from-two-instances"
+	if kind >= 2 {
+		key = "glued-from-two-instances-in-handshake"
+	}
+	var reply []otr3.ValidMessage
+	for _, a := range order {
+		s := 1
+		if a.owner {
+			s = 0
+		}
+		piece := streams[s][a.ix]
+		what = append(what, fmt.Sprintf("%s %d/%d", []string{"owner", "other"}[s], a.ix+1, len(streams[s])))
+		plain, ts, err, panicked := w.recv(r, piece)
+		if panicked {
+			return
+		}
+		olog.ok("C14")
+		describe := func() string {
+			return fmt.Sprintf("OTRv3 conversation that knows no peer instance yet, two sender instances %#x (owner: its first piece arrived first) and %#x, payload %s, %d and %d pieces, arrival order (%s) %v: the last arrival %.60q… caused plaintext %.60q, %d messages to send, error %v, events %s",
+				tags[0], tags[1], kinds[kind], n, m, pname, what, piece, plain, len(ts), err, lastEvents)
+		}
+		last := a.owner && a.ix == n-1
+		switch {
+		case !a.owner:
+			if plain != nil || len(ts) > 0 || err != nil || !onlyForeignNotices() {
+				olog.viol("C14", key, "a piece of another instance than the one whose stream is in progress caused something to be processed: "+describe())
+				return
+			}
+		case !last:
+			if !quietDelivery(plain, ts, err) {
+				olog.viol("C14", key, "a piece that completes no stream caused something to be processed: "+describe())
+				return
+			}
+		default:
+			processed++
+			good := err == nil
+			addressed := ""
+			switch kind {
+			case 0:
+				good = good && bytes.Equal(plain, wholes[0]) && len(ts) == 0
+			default:
+				// one message goes out (we do not fragment), addressed to the owner
+				good = good && plain == nil && len(ts) == 1
+				if good {
+					to, from, ok := otr3.ExtractInstanceTags(ts[0])
+					good = ok && from == rt && to == tags[0]
+					if !good {
+						addressed = fmt.Sprintf(" (the message to send is from instance %#x to instance %#x; we are %#x)", from, to, rt)
+					}
+				}
+			}
+			if !good {
+				olog.viol("C14", key, "the last piece of the owner's stream did not cause exactly the owner's message to be processed (expected: "+expect[kind]+"): "+describe()+addressed)
+				return
+			}
+			reply = ts
+		}
+	}
+	if processed != 1 {
+		return // cannot happen: the order contains the owner's last piece once
+	}
+	if kind < 2 {
+		return
+	}
+	// the key exchange with the owner completes, and only with the owner
+	l := &link{w: w, a: clients[0], b: r}
+	l.enqueue(r, reply)
+	l.settle(60)
+	if w.dead {
+		return
+	}
+	olog.ok("C14")
+	if !clients[0].c.IsEncrypted() || !r.c.IsEncrypted() || clients[1].c.IsEncrypted() || r.c.GetTheirInstanceTag() != tags[0] {
+		olog.viol("C14", "lossy-or-duplicated", fmt.Sprintf("OTRv3 conversation that knew no peer instance, two clients %#x and %#x answering with a fragmented %s each (%d and %d pieces, arrival order (%s) %v): after the first client's message was completed and every reply delivered, the key exchange with it is not complete (encrypted: first client %v, we %v, other client %v; we talk to instance %#x)",
+			tags[0], tags[1], kinds[kind], n, m, pname, what, clients[0].c.IsEncrypted(), r.c.IsEncrypted(), clients[1].c.IsEncrypted(), r.c.GetTheirInstanceTag()))
+		return
+	}
+	text := append([]byte(fmt.Sprintf("<two-instances-%d> ", g.r.Intn(1000000))), g.cleanText()...)
+	ps, err := w.send(clients[0], text)
+	if err != nil || w.dead {
+		return
+	}
+	got := 0
+	for _, p := range ps {
+		plain, ts, _, _ := w.recv(r, p)
+		if w.dead {
+			return
+		}
+		if plain != nil && bytes.Equal(plain, text) {
+			got++
+		} else if plain != nil {
+			got += 100
+		}
+		l.enqueue(r, ts)
+	}
+	l.settle(10)
+	olog.ok("C14")
+	if got != 1 {
+		olog.viol("C14", "lossy-or-duplicated", fmt.Sprintf("OTRv3 session established after two clients' fragmented %ss interleaved: a text of %d bytes in %d pieces from the client we talk to was not delivered exactly once (code %d)", kinds[kind], len(text), len(ps), got))
+	}
+}
+
 func init() {
 	profiles["frag"] = func(seed int64, n int, out *emitter, extra map[string]interface{}) map[string]int {
 		g := &gen{r: rand.New(rand.NewSource(seed)), out: out, dist: map[string]int{}}
@@ -562,6 +816,12 @@ func init() {
 			g.fragScenario(w)
 		}
 		g.manyFragments(w)
+		// appended scenarios (after everything that existed before, so that those traces stay what they were)
+		for kind := 0; kind < 4 && !w.dead; kind++ {
+			for pattern := 0; pattern < 3; pattern++ {
+				g.twoInstancesBeforeBinding(w, kind, pattern)
+			}
+		}
 		extra["panics"] = panicCount
 		olog.export(extra)
 		return g.dist
